@@ -48,7 +48,8 @@ THEOREMS = ['C05_pot_transform_compl_untouched', 'C05_pot_transform_den',
             'C05_apply_trcl_den', 'C05_cell_transform_den',
             'C05_cache_coherent', 'C05_pot_fill_located',
             'C05_fill_phase_located', 'C05_outside_container_nothing',
-            'C05_located_enumerated', 'C05_located_unique']
+            'C05_located_enumerated', 'C05_located_unique',
+            'C05_descents_distinct', 'C05_by_universe_lists']
 
 
 def tie_case_summary(case):
@@ -77,6 +78,63 @@ def case_from_summary(data):
     out['cells'] = cells
     out['pool'] = [tuple(t) for t in data['pool']]
     return out
+
+
+def negative_universe_witnesses():
+    '''Decks where a bounded filler cell, entirely inside every container that
+    receives it, carries a negative universe number (MCNP: same universe,
+    "do not truncate by the container" hint).'''
+    def cell(cid, mat, expr, u=0, fill=None, imp=1, trcl=None):
+        return {'id': cid, 'mat': mat, 'rho': '-1.0' if mat else None,
+                'expr': expr, 'imp': {'n': imp}, 'u': u, 'lat': None,
+                'fill': fill, 'trcl': trcl, 'like': None}
+
+    def surf(sid, mn, *params):
+        return {'id': sid, 'mn': mn, 'params': [float(v) for v in params],
+                'tr': None, 'bc': ''}
+    one = {'title': 'c05 negative universe number', 'data': [],
+           'transforms': {}, 'materials': {m: ['1001', '1.0'] for m in (1, 2, 3)},
+           'surfaces': [surf(1, 'so', 5), surf(2, 'so', 1), surf(3, 'so', 8)],
+           'cells': [cell(1, 0, ('s', -1), fill={'u': 1, 'tr': None}),
+                     cell(2, 3, ('*', ('s', 1), ('s', -3))),
+                     cell(3, 0, ('s', 3), imp=0),
+                     cell(10, 1, ('s', -2), u=-1),
+                     cell(11, 2, ('s', 2), u=1)]}
+    two = {'title': 'c05 negative universe number, level 2', 'data': [],
+           'transforms': {},
+           'materials': {m: ['1001', '1.0'] for m in (1, 2, 3, 4)},
+           'surfaces': [surf(1, 'so', 5), surf(2, 'so', 2), surf(3, 'so', 8),
+                        surf(4, 's', 0.3, 0, 0, 0.5)],
+           'cells': [cell(1, 0, ('s', -1), fill={'u': 1, 'tr': None}),
+                     cell(2, 3, ('*', ('s', 1), ('s', -3))),
+                     cell(3, 0, ('s', 3), imp=0),
+                     cell(10, 0, ('s', -2), u=1, fill={'u': 2, 'tr': None}),
+                     cell(11, 2, ('s', 2), u=1),
+                     cell(20, 1, ('s', -4), u=-2),
+                     cell(21, 4, ('s', 4), u=2)]}
+    return [('negative universe at level 1', one, []),
+            ('negative universe at level 2', two, []),
+            ('negative universe at level 1, inlined', one,
+             ['--always-inline-filling', '--always-inline-filled'])]
+
+
+def negative_universe_failures(deck, options):
+    '''Failures of the conversion of `deck` against the reference location on
+    the same deck with |u| as universe numbers (mcnpref compares universe
+    numbers literally).'''
+    import copy
+    import impl
+    conv = impl.convert(deckmod.render(deck), list(options))
+    if not conv.ok or conv.text is None:
+        return [{'point': None, 'why': f'rejected: {conv.exc}: {conv.msg[:120]}'}]
+    t4 = impl.T4File(conv.text)
+    ref_deck = copy.deepcopy(deck)
+    for c in ref_deck['cells']:
+        c['u'] = abs(c['u'])
+    pts = c05_sweep.sample_points(random.Random(5), 200)
+    pts += [[0.5, 0.2, 0.1], [0.3, 0.1, 0.0], [-0.4, 0.3, 0.2]]
+    _, _, failures = c05_sweep.compare(ref_deck, t4, pts)
+    return failures
 
 
 def sweep(res, rng, n_decks, n_points, tag):
@@ -142,8 +200,38 @@ def run(res, tier, seed, proofs_ok):
         'IMP=0 level-0 cells), 150+ points per deck; non-trivial = a point '
         'located below level 0')
 
-    # 1. known findings: none recorded for C05 (the empty-filler defect of
-    #    DESIGN 8 #7 is C08/C01's and the generators avoid it)
+    # 1. known findings (the empty-filler defect of DESIGN 8 #7 is C08/C01's
+    #    and the generators avoid it)
+    for name, deck, options in negative_universe_witnesses():
+        fails = negative_universe_failures(deck, options)
+        res.count('witness:negative_universe_number')
+        neg_cells = {c['id'] for c in deck['cells'] if c['u'] < 0}
+        # the class: a point whose reference chain passes through a cell with
+        # a negative universe number lies in no volume; anything else that
+        # goes wrong on these decks is an ordinary violation
+        in_class = [f for f in fails if f.get('kind') == 'count'
+                    and 'lies in 0 volumes' in f['why']
+                    and any(f'({cid}, None)' in f['why'] for cid in neg_cells)]
+        other = [f for f in fails if f not in in_class]
+        if other:
+            res.violation(
+                'impl-violation', f'{name}: {other[0]["why"]}',
+                {'input': {'deck': deckmod.render(deck), 'options': options,
+                           'abstract': deck, 'point': other[0]['point']},
+                 'observed': [f['why'] for f in other[:5]]},
+                found_input=True)
+        fails = in_class
+        if fails:
+            res.violation(
+                'impl-violation',
+                f'{name}: {len(fails)} sample points of a filled cell lie in '
+                f'no volume / the wrong volume: {fails[0]["why"]}',
+                {'input': {'deck': deckmod.render(deck), 'options': options,
+                           'abstract': deck, 'point': fails[0]['point']},
+                 'expected': 'mcnpref.Reference.locate on the deck with '
+                             '|u| as universe numbers',
+                 'observed': [f['why'] for f in fails[:5]]},
+                cls='negative_universe_number', found_input=True)
 
     # 2. tie
     cases, meta = [], []
@@ -239,6 +327,11 @@ def replay(path):
                     if isinstance(holder.get(key), list):
                         holder[key] = tuple(holder[key])
             t4 = impl.T4File(conv.text)
+            if any(cell['u'] < 0 for cell in deck['cells']):
+                print('negative universe numbers: the reference location '
+                      'uses |u| (MCNP: same universe)')
+                for cell in deck['cells']:
+                    cell['u'] = abs(cell['u'])
             pts = [inp['point']] if inp.get('point') else []
             pts += c05_sweep.sample_points(random.Random(0), 300)
             checked, deep, failures = c05_sweep.compare(deck, t4, pts)
